@@ -86,6 +86,6 @@ TNext == /\ l <= Len(Trace)
          /\ start' = IF Trace[l].a = "sum" THEN l + 1 ELSE start
 
 \* Every line is decided here. A rejected line is printed and the walk goes on, so that one run reports all of
-\* them (checks/C12.py turns each into a violation); Complete makes sure the walk reached the end.
+\* them (checks/C12.py turns each into a violation and requires that the walk visited Len(Trace) + 1 states).
 CaseOK == l <= Len(Trace) => (Check(Trace[l], start, l - 1) \/ PrintT(<<"REJECTED", l>>))
 =============================================================================
